@@ -8,7 +8,13 @@ Harness (real code, bitwise): each script is run once in a fresh process (refere
 * on fresh and on reused engine objects, after arbitrary earlier simulations of other kinds and sizes in the same process,
 * through the package's own driver simulate_script, and by re-running the script stored in the trajectory
   (including scripts constructed without a seed),
-* with another seed (the Euler result must not change).
+* with another seed (the Euler result must not change),
+* on a re-used engine object with the loop driven by the polled status only (`while not is_complete(): …`,
+  `while iterate_n(0): …`),
+* after the caller edited its own RDScript object (seed, time step) following a run: the script stored in the earlier
+  trajectory still reproduces it,
+* tau-leap on grids with channel means >= 12 per step (tens of thousands of molecules per cell: the normal-approximation
+  branch of std::poisson_distribution), repeated four times and after other such runs in the same process.
 Oracle: bitwise equality (sha1 of t.tobytes() + data.tobytes()) with the reference.
 Correspondence: op `lifecycle` — the model replays the schedule (run slices with the iteration counts read off the native
 clock) and must yield the recorded times of the real trajectory.
@@ -49,10 +55,13 @@ def rand_schedule(rng):
     return steps
 
 
+KINDS = ["schedule", "twice", "after_others", "simulate", "resim", "reused", "noseed", "poll_reused", "edit_resim", "schedule"]
+
+
 def run(ctx):
     rng = ctx.rng
     n = ctx.n(25, 300)
-    nsched = ctx.n(8, 30)
+    nsched = ctx.n(10, 30)
     entries = []
     for i in range(n):
         option = lc.OPTIONS[i % 3]
@@ -61,6 +70,22 @@ def run(ctx):
         if i % 6 in (1, 2):
             S["kw"]["rng_seed"] = 0          # seed 0 is a seed like any other
         entries.append({"S": S, "info": info, "option": option, "idx": i})
+    # tau-leap with large channel means (propensity * dt >= 12): A <-> B with 40000 molecules per cell
+    for b in range(ctx.n(3, 12)):
+        w, h = rng.choice([(2, 2), (2, 1), (3, 1), (1, 1)])
+        ncell = w * h
+        nA = rng.choice([40000, 25000, 60000])
+        sysd = {"network": {"species": [{"label": "A", "density": 0, "D": rng.choice([0.0, 2.0])}, {"label": "B", "density": 0, "D": 0.5}],
+                            "reactions": [{"eq": "A -> B", "k+": rng.choice([2.0, 1.0]), "k-": 1.0}], "environments": ["a"]},
+                "space": {"type": "grid", "w": w, "h": h, "d": 1, "cell_volume": 1.0, "cell_env": [0] * ncell,
+                          "boundary_conditions": ({"x": "periodical"} if rng.random() < 0.5 else {})},
+                "state": [float(nA)] * ncell + [float(rng.choice([100, 30000]))] * ncell}
+        nst = rng.randint(8, 30)
+        S = {"system": sysd, "kw": {"t_sample": [0.0, 1e-3 * (nst // 2), 1e-3 * nst], "time_step": 1e-3, "sampling_policy": rng.choice(["on_t_sample", "on_iteration"]),
+                                    "rng_seed": rng.randint(0, 2 ** 31 - 1), "init_state_processing": "none",
+                                    "units_system": {"time": "s", "space": "µm", "quantity": "molecule"}}}
+        info = {"option": "tauleap", "policy": S["kw"]["sampling_policy"], "space": "grid", "bigmean": True, "nsp": 2, "n": ncell}
+        entries.append({"S": S, "info": info, "option": "tauleap", "idx": n + b, "bigmean": True})
     # ---- references: fresh process, one iteration at a time (also yields the clock for the model)
     jobs = []
     for e in entries:
@@ -92,8 +117,10 @@ def run(ctx):
     for e in good:
         others = [o for o in good if o is not e]
         for v in range(nsched):
-            kind = ["schedule", "twice", "after_others", "simulate", "resim", "reused", "noseed", "schedule"][v % 8] if v < 8 else rng.choice(
-                ["schedule", "after_others", "reused", "simulate", "twice"])
+            kind = KINDS[v] if v < len(KINDS) else rng.choice(["schedule", "after_others", "reused", "simulate", "twice", "poll_reused", "edit_resim"])
+            if e.get("bigmean"):
+                kind = ["repeat4", "after_others", "reused", "twice", "resim", "poll_reused"][v % 6]
+                others = [o for o in good if o is not e and o.get("bigmean")] or others
             calls, scripts, engines = [], [e["S"]], [e["option"]]
             sched = rand_schedule(rng)
             if rng.random() < 0.5:
@@ -125,6 +152,26 @@ def run(ctx):
                 S2["kw"]["rng_seed"] = None
                 scripts.append(S2)
                 calls += [{"obj": 0, "call": "simulate", "script": len(scripts) - 1}, {"obj": 0, "call": "new"}, {"obj": 0, "call": "resim"}]
+            elif kind == "poll_reused":
+                # the engine object ran a simulation to completion before; the new loop is driven by the polled status only
+                how = rng.choice(["is_complete", "iterate_n0"])
+                step = rng.choice([["iterate"], ["iterate_n", rng.choice([1, 3, 64])], ["run", 0], ["run", 1]])
+                calls += [{"obj": 0, "call": "setup", "script": 0}, {"obj": 0, "call": "schedule", "steps": sched, "max": 100000},
+                          {"obj": 0, "call": "finalize"},
+                          {"obj": 0, "call": "setup", "script": 0, "peek": True},
+                          {"obj": 0, "call": "poll", "how": how, "step": step, "max": 100000},
+                          {"obj": 0, "call": "get_output", "full": True}, {"obj": 0, "call": "finalize"}]
+            elif kind == "edit_resim":
+                # a sweep re-using one RDScript object: run, then the caller edits ITS script; the script stored in the
+                # first trajectory must still reproduce it
+                calls += [{"obj": 0, "call": "simulate", "script": 0},
+                          {"obj": 0, "call": "edit_script", "script": 0,
+                           "set": {"rng_seed": (e["S"]["kw"]["rng_seed"] + 1 + rng.randint(0, 1000)) % (2 ** 31), "time_step_factor": 0.5}},
+                          {"obj": 0, "call": "new"}, {"obj": 0, "call": "resim"}]
+            elif kind == "repeat4":
+                for _ in range(4):
+                    calls += [{"obj": 0, "call": "setup", "script": 0}, {"obj": 0, "call": "schedule", "steps": sched, "max": 100000},
+                              {"obj": 0, "call": "get_output", "full": False}, {"obj": 0, "call": "finalize"}]
             elif kind == "twice":
                 # the SAME RDScript object is set up and run twice (set-up must not modify the caller's script)
                 for _ in range(2):
@@ -161,7 +208,8 @@ def run(ctx):
         outs = [x["ret"] for c, x in zip(j["calls"], r["results"]) if c["call"] in ("get_output", "simulate", "resim")]
         if kind == "otherseed":
             h = outs[-1]["hash"]
-            if e["option"] == "euler" and h != e["ref"]["hash"]:
+            # (with init_state_processing Poisson / redist the initial state is drawn with the seed, for every engine)
+            if e["option"] == "euler" and e["info"].get("mode") in ("none", "auto") and h != e["ref"]["hash"]:
                 ctx.violation("euler-seed", "the deterministic engine's trajectory changed with the seed", case, impl=h, expected=e["ref"]["hash"])
             if e["option"] != "euler":
                 ctx.count("stochastic_seed_changed" if h != e["ref"]["hash"] else "stochastic_seed_same")
@@ -171,6 +219,30 @@ def run(ctx):
             if outs[-2]["seed"] is None or outs[-1]["hash"] != outs[-2]["hash"]:
                 ctx.violation("stored-script:noseed", "re-running trajectory.script (seed drawn at construction) does not reproduce the trajectory",
                               case, impl={"seed": outs[-2]["seed"], "first": outs[-2]["hash"], "rerun": outs[-1]["hash"]})
+            continue
+        for x in r["results"]:
+            for key, what, impl, exp in lc.init_failures(x):
+                ctx.violation(key, what, case, impl=impl, expected=exp)
+        changed = [(c["call"], x["script_changed"]) for c, x in zip(j["calls"], r["results"]) if x.get("script_changed")]
+        if changed:
+            ctx.violation("script-modified", "%s() changed the caller's script (%s)" % (changed[0][0], changed[0][1][0]["field"]), case, impl=changed[0][1][:3], expected=[])
+        if kind == "edit_resim":
+            ed = [x["ret"] for c, x in zip(j["calls"], r["results"]) if c["call"] == "edit_script"][0]
+            if ed["stored_seed"] != ed["seed_before"]:
+                ctx.violation("stored-script:aliased", "after the caller set its script's seed to %r, the script stored in the earlier trajectory (simulated with seed %r) "
+                              "carries seed %r" % (ed["seed_after"], ed["seed_before"], ed["stored_seed"]), case, impl=ed["stored_seed"], expected=ed["seed_before"])
+            if outs[-1]["hash"] != outs[0]["hash"]:
+                ctx.violation("stored-script:after-edit", "after the caller edited its own script object (seed, time step), re-running the script stored in the "
+                              "earlier trajectory does not reproduce that trajectory", case, impl=outs[-1]["hash"], expected=outs[0]["hash"])
+            if outs[0]["hash"] != e["ref"]["hash"]:
+                ctx.violation("bitwise:simulate", "trajectory of simulate_script differs bitwise from the reference", case, impl=outs[0]["hash"], expected=e["ref"]["hash"])
+            continue
+        if kind == "repeat4":
+            hs = [o["hash"] for o in outs]
+            if any(x != e["ref"]["hash"] for x in hs):
+                k = next(i for i, x in enumerate(hs) if x != e["ref"]["hash"])
+                ctx.violation("bitwise:repeat", "repetition %d of the same script on the same engine object differs bitwise from the fresh-process reference" % (k + 1),
+                              case, impl=hs, expected=e["ref"]["hash"])
             continue
         h = outs[-1]["hash"]
         if kind == "twice" and outs[0]["hash"] != outs[-1]["hash"]:
@@ -234,6 +306,20 @@ def replay(ctx, rec):
         return False, {"status": r["status"], "at": r["at"]}
     outs = [x["ret"] for c, x in zip(job["calls"], r["results"]) if c["call"] in ("get_output", "simulate", "resim") and "ret" in x]
     detail = {"kind": job.get("kind"), "hashes": [o["hash"] for o in outs], "reference_hash": case.get("reference_hash")}
+    inits = [f for x in r["results"] for f in lc.init_failures(x)]
+    if inits:
+        detail["marshalling"] = [{"key": f[0], "what": f[1]} for f in inits[:3]]
+        return False, detail
+    changed = [x["script_changed"] for x in r["results"] if x.get("script_changed")]
+    if changed:
+        detail["script_changed"] = changed[0]
+        return False, detail
+    if job.get("kind") == "edit_resim":
+        ed = [x["ret"] for c, x in zip(job["calls"], r["results"]) if c["call"] == "edit_script" and "ret" in x]
+        detail["edit"] = ed
+        return (len(outs) >= 2 and outs[-1]["hash"] == outs[0]["hash"] and bool(ed) and ed[0]["stored_seed"] == ed[0]["seed_before"]), detail
+    if job.get("kind") == "repeat4":
+        return (bool(outs) and all(o["hash"] == case.get("reference_hash") for o in outs)), detail
     if job.get("kind") in ("noseed", "resim"):
         return (len(outs) >= 2 and outs[-1]["hash"] == outs[-2]["hash"]), detail
     return (bool(outs) and outs[-1]["hash"] == case.get("reference_hash")), detail
